@@ -43,11 +43,34 @@ func parseProtectedHeaders(encoded string) (*jwsProtectedHeader, error) {
 			Msg: fmt.Sprintf("jws envelope protected header can't be decoded: %s", err.Error())}
 	}
 
+	// encoding/json matches struct fields case-insensitively, while the second
+	// decode above (and the JWT library) match header names exactly. Reject a
+	// header whose name differs from a specification-defined header only by
+	// case, otherwise it would be used as that header and also be surfaced as
+	// an extended attribute.
+	for key := range protected.ExtendedAttributes {
+		if isHeaderKeyCaseVariant(key) {
+			return nil, &signature.InvalidSignatureError{
+				Msg: fmt.Sprintf("jws envelope protected header %q is not allowed: header names are case-sensitive", key)}
+		}
+	}
+
 	// delete attributes that are already defined in jwsProtectedHeader.
 	for _, headerKey := range headerKeys {
 		delete(protected.ExtendedAttributes, headerKey)
 	}
 	return &protected, nil
+}
+
+// isHeaderKeyCaseVariant reports whether key equals one of the headerKeys
+// under Unicode case-folding without being identical to it.
+func isHeaderKeyCaseVariant(key string) bool {
+	for _, headerKey := range headerKeys {
+		if key != headerKey && strings.EqualFold(key, headerKey) {
+			return true
+		}
+	}
+	return false
 }
 
 func populateProtectedHeaders(protectedHeader *jwsProtectedHeader, signerInfo *signature.SignerInfo) error {
